@@ -263,6 +263,86 @@ def pubexp_width_gate(chk):
     chk.floor('pubexp gate instances', n, 4)
 
 
+def pubexp_fully_converted(chk):
+    """Key generation inverts the public exponent modulo (p-1)/2: invert_pubexp writes the 32-bit `e` into a zeroed big integer, word by
+    word.  Every one of the 32 bits of e must land at its own weight: word k (k >= 1) bit j holds bit (k-1)*w + j.  A dropped top
+    word leaves exponents below 2^w untouched (65537, 3: everything the tests use) and computes the private exponents of the others
+    from a truncated e."""
+    from .. import wmw
+    R = 'rsa-keygen-pubexp-conversion'
+    P = wmw.program()
+    n = 0
+    for impl, w, f in (('i31', 31, 'rsa_i31_keygen_inner.c'), ('i15', 15, 'rsa_i15_keygen.c')):
+        Fs = [F for (un, fn), F in P.static.items() if fn == 'invert_pubexp' and F.file().endswith(f)]
+        if not Fs:
+            raise AnalysisBroken('invert_pubexp (%s) vanished' % impl)
+        F = Fs[0]
+        E = {'k': 'a', 'v': 2}
+        esz = 4 if w == 31 else 2
+
+        def piece(o, depth=0):
+            """-> (shift, mask) when o is (e >> shift) & mask, through casts"""
+            if o == E:
+                return 0, 0xFFFFFFFF
+            if o['k'] != 'i' or depth > 5:
+                return None
+            i = F.insts[o['v']]
+            if i['op'] in ('zext', 'trunc'):
+                r = piece(i['ops'][0], depth + 1)
+                if r and i['op'] == 'trunc':
+                    bits = int(i['ty'][1:])
+                    r = (r[0], r[1] & ((1 << bits) - 1))
+                return r
+            if i['op'] == 'and' and i['ops'][1]['k'] == 'c':
+                r = piece(i['ops'][0], depth + 1)
+                return (r[0], r[1] & i['ops'][1]['v']) if r else None
+            if i['op'] == 'lshr' and i['ops'][1]['k'] == 'c':
+                r = piece(i['ops'][0], depth + 1)
+                return (r[0] + i['ops'][1]['v'], r[1] >> i['ops'][1]['v']) if r else None
+            return None
+        cover = {}
+        sites = []
+        for i in F.insts.values():
+            if i['op'] != 'store':
+                continue
+            pc = piece(i['ops'][0])
+            if pc is None:
+                continue
+            b, off = F.addr_of(i['ops'][1])
+            if off is None or off % esz:
+                continue
+            k = off // esz
+            sites.append(i)
+            for j in range(32):
+                if (pc[1] >> j) & 1 and pc[0] + j < 32:
+                    cover.setdefault(pc[0] + j, []).append((k, j))
+        n += 1
+        inst = 'invert_pubexp (%s): each of the 32 bits of e is stored once, bit b in word 1 + b/%d at position b%%%d' % (impl, w, w)
+        if not sites:
+            raise AnalysisBroken('invert_pubexp (%s): no store of a piece of e found' % impl)
+        missing = [b for b in range(32) if b not in cover]
+        wrong = [b for b, l in cover.items() if len(l) != 1 or l[0] != (1 + b // w, b % w)]
+        if missing or wrong:
+            chk.violation(R, inst, F.where(sites[-1]), '%s: the inverse is computed for another exponent than the one published whenever e >= 2^%d' % (
+                'bits %s of e are not stored' % _ranges(missing) if missing else 'bits %s of e are stored at the wrong place' % _ranges(wrong),
+                min(missing + wrong)), key='%s %s' % (R, impl))
+        else:
+            chk.ok(R, inst, F.where(sites[0]))
+    chk.floor('pubexp conversions', n, 2)
+
+
+def _ranges(l):
+    l = sorted(l)
+    out, k = [], 0
+    while k < len(l):
+        j = k
+        while j + 1 < len(l) and l[j + 1] == l[j] + 1:
+            j += 1
+        out.append('%d' % l[k] if j == k else '%d..%d' % (l[k], l[j]))
+        k = j + 1
+    return ', '.join(out)
+
+
 def modpow_temporaries(chk):
     """br_iXX_modpow(x, e, elen, m, m0i, t1, t2) needs two temporaries of the size of the modulus (its words plus the header word)
     that do not overlap.  At every call site the two pointers are compared in symbolic form: distinct local arrays, a constant
@@ -452,6 +532,7 @@ def run(tier):
     keygen_forced_bits(chk)
     zero_stripping_direction(chk)
     pubexp_width_gate(chk)
+    pubexp_fully_converted(chk)
     modpow_temporaries(chk)
     client_keyx_padding(chk)
     muladd_quotient_estimate(chk)
